@@ -2,7 +2,7 @@ import re
 from re import Pattern
 
 ELLIPSIS_PATTERN: Pattern[str] = re.compile(
-    r"(^|[\w\"\'“‘])(\s*)(\.\.\.)([.,:;?!)\-—\"\'”’]?)(\s*)",
+    r"(^|[\w\"\'“‘”’])(\s*)(\.\.\.)([.,:;?!)\-—\"\'”’]?)(\s*)",
     re.MULTILINE,
 )
 
